@@ -384,7 +384,7 @@ def rule_T6(body, callees, arg):
         op = m.end() - 1
         cp = match_brace(mask, op, '(', ')')
         inner = mask[op + 1:cp].strip()
-        ins = (', ' if inner else '') + arg
+        ins = ('' if (not inner or inner.endswith(',')) else ', ') + arg
         body = body[:cp] + ins + body[cp:]
         pos = op + 1            # nested calls inside the argument list are handled too
         fired += 1
